@@ -25,13 +25,23 @@ pub tracked struct World {
     pub ghost meta_durable: bool,    // RegionsSync happened after FileSync in this round
     pub ghost promotes: nat,         // number of Promote events so far
     pub ghost punches: nat,
+    // --- compaction (U9) ---
+    pub ghost flushed: bool,                     // a successful Database::flush happened in this compact()
+    pub ghost holes: Map<usize, usize>,          // promoted holes of the layout (start_to_hole), fixed while the layout read lock is held
+    pub ghost have_meta: bool,                   // a region-metadata WRITE guard was taken ...
+    pub ghost held: (usize, usize, usize),       // ... with this (start, len, reserved) under it
+    pub ghost file_len_changes: nat,             // set_len calls
 }
 
 impl World {
+    pub open spec fn same_compact(self, o: World) -> bool {
+        self.flushed == o.flushed && self.holes == o.holes && self.have_meta == o.have_meta && self.held == o.held
+        && self.file_len_changes == o.file_len_changes
+    }
     // everything except the trace and the named fields is unchanged
     pub open spec fn same_flags(self, o: World) -> bool {
         self.pending_empty == o.pending_empty && self.data_synced == o.data_synced && self.meta_durable == o.meta_durable
-        && self.promotes == o.promotes && self.punches == o.punches
+        && self.promotes == o.promotes && self.punches == o.punches && self.same_compact(o)
     }
 }
 
@@ -65,7 +75,7 @@ impl Region {
     #[verifier::external_body]
     pub fn take_dirty_bounds(&self, Tracked(w): Tracked<&mut World>) -> (r: Option<(usize, usize)>)
         ensures final(w).tr == old(w).tr.push(Ev::TakeBounds), final(w).pending_empty == old(w).pending_empty,
-                !final(w).data_synced, !final(w).meta_durable, final(w).promotes == old(w).promotes, final(w).punches == old(w).punches,
+                !final(w).data_synced, !final(w).meta_durable, final(w).promotes == old(w).promotes, final(w).punches == old(w).punches, final(w).same_compact(*old(w)),
                 r matches Some((a, b)) ==> a < b && self.m_start() + b <= usize::MAX
     { unimplemented!() }
     #[verifier::external_body]
@@ -95,7 +105,7 @@ impl RegionsG {
     pub fn sync_data(&self, Tracked(w): Tracked<&mut World>) -> (r: Result<()>)
         requires old(w).data_synced
         ensures final(w).pending_empty == old(w).pending_empty, final(w).data_synced == old(w).data_synced,
-                final(w).promotes == old(w).promotes, final(w).punches == old(w).punches,
+                final(w).promotes == old(w).promotes, final(w).punches == old(w).punches, final(w).same_compact(*old(w)),
                 r is Ok ==> final(w).tr == old(w).tr.push(Ev::RegionsSync) && final(w).meta_durable,
                 r is Err ==> final(w).tr == old(w).tr && final(w).meta_durable == old(w).meta_durable
     { unimplemented!() }
@@ -104,7 +114,7 @@ impl FileG {
     #[verifier::external_body]
     pub fn sync_data(&self, Tracked(w): Tracked<&mut World>) -> (r: std::result::Result<(), IoErr>)
         ensures final(w).pending_empty == old(w).pending_empty, final(w).meta_durable == old(w).meta_durable,
-                final(w).promotes == old(w).promotes, final(w).punches == old(w).punches,
+                final(w).promotes == old(w).promotes, final(w).punches == old(w).punches, final(w).same_compact(*old(w)),
                 r is Ok ==> final(w).tr == old(w).tr.push(Ev::FileSync) && final(w).data_synced,
                 r is Err ==> final(w).tr == old(w).tr && final(w).data_synced == old(w).data_synced
     { unimplemented!() }
@@ -123,14 +133,14 @@ impl LayoutG {
     pub fn promote_pending_holes(&mut self, name: &StrH, Tracked(w): Tracked<&mut World>)
         requires old(w).pending_empty || old(w).meta_durable
         ensures final(w).tr == old(w).tr.push(Ev::Promote), final(w).pending_empty, final(w).promotes == old(w).promotes + 1,
-                final(w).data_synced == old(w).data_synced, final(w).meta_durable == old(w).meta_durable, final(w).punches == old(w).punches
+                final(w).data_synced == old(w).data_synced, final(w).meta_durable == old(w).meta_durable, final(w).punches == old(w).punches, final(w).same_compact(*old(w))
     { unimplemented!() }
     // emptiness test of the pending set (used by the repaired fast path)
     #[verifier::external_body]
     pub fn has_pending_holes(&self, Tracked(w): Tracked<&mut World>) -> (r: bool)
         ensures final(w).tr == old(w).tr, !r ==> final(w).pending_empty, r ==> final(w).pending_empty == old(w).pending_empty,
                 final(w).data_synced == old(w).data_synced, final(w).meta_durable == old(w).meta_durable,
-                final(w).promotes == old(w).promotes, final(w).punches == old(w).punches
+                final(w).promotes == old(w).promotes, final(w).punches == old(w).punches, final(w).same_compact(*old(w))
     { unimplemented!() }
 }
 impl DirtyList {
@@ -144,7 +154,7 @@ impl DirtyList {
 pub fn collect_dirty_regions(db: &Database, Tracked(w): Tracked<&mut World>) -> (r: DirtyList)
     // taking the dirty bounds starts a new flush round: nothing is synced yet
     ensures final(w).tr == old(w).tr.push(Ev::TakeBounds), final(w).pending_empty == old(w).pending_empty,
-            !final(w).data_synced, !final(w).meta_durable, final(w).promotes == old(w).promotes, final(w).punches == old(w).punches
+            !final(w).data_synced, !final(w).meta_durable, final(w).promotes == old(w).promotes, final(w).punches == old(w).punches, final(w).same_compact(*old(w))
 { unimplemented!() }
 // the `.iter().filter_map(..).fold(..)` computing the union of the dirty byte ranges: (MAX, 0) when none
 #[verifier::external_body]
